@@ -42,4 +42,21 @@ for w in [[0.1, 0.2, 0.3, 0.4], [0.25] * 4, [0.7, 0.1, 0.1, 0.05, 0.05], [1.0, 0
                         ok = False
             if not ok:
                 fails.append({"weights": w, "method": method, "u": u, "source_indices": [float(v) for v in src]})
+# float32 effect the property still covers ("each an exact copy of an input particle ... for every value of its random
+# offset in (0,1)"): with large-magnitude log weights the float32 cumulative sum of the normalised weights can end just
+# below 1, so an offset close to 1 asks for index N; the gather must still return a copy of an input particle
+import numpy as _np
+n = 1000
+lw = jnp.asarray(-3000.0 + 2.0 * _np.random.default_rng(0).standard_normal(n), dtype=jnp.float32)
+tr = Tr(f, ((), {}), {"x": jnp.arange(n) * 10.0}, jnp.arange(n) * 100.0, jnp.arange(n) * 1.0)
+pc = S.ParticleCollection(traces=tr, log_weights=lw, diagnostic_weights=lw, n_samples=const(n), log_marginal_estimate=jnp.array(0.7))
+for u in (0.5, 0.93, 0.97, 0.995, 0.9999):
+    U["u"] = u
+    r = S.resample(pc, method="systematic")
+    x = _np.asarray(r.traces._choices["x"]); rv = _np.asarray(r.traces._retval); sc = _np.asarray(r.traces._score)
+    src = x / 10.0
+    ok = bool(_np.all(_np.isfinite(x))) and bool(_np.all((src >= 0) & (src <= n - 1) & (src == _np.round(src)))) and bool(_np.allclose(rv, src * 100.0)) and bool(_np.allclose(sc, src))
+    if not ok:
+        bad = [int(i) for i in _np.nonzero(~_np.isfinite(x) | ~_np.isclose(rv, src * 100.0))[0][:3]]
+        fails.append({"weights": "1000 log weights ~ N(-3000, 2) (float32)", "method": "systematic", "u": u, "output_particles_that_are_no_copy_of_an_input_particle": bad, "their_x": [float(x[i]) for i in bad]})
 emit({"confirmed": bool(fails), "tier": "native+substitute(uniform,categorical)", "failures": fails[:3]})
